@@ -9,7 +9,7 @@ REPO_HOOK_COMMITS = ["ad75fb0"]
 # id -> (category, technique, level text, level note, design ref)
 CLAIMED = {
  "C01": ("exploration", "differential runtime oracle: independent reference semantics vs. Query over generated scenarios",
-         "Runs the real engine over generated ingest/flush/merge histories (three store pairs, six tokenizers, all compressions, FPR 0.5..1e-12) and compares every query result against an independent encoding/json-based reference: every stored row the reference says must be returned is returned; after the generated queries an entry sweep looks up every distinct token, field path and field:token pair the stored rows produce (sampled beyond a cap) on its own. Rows carry planted membership-key collisions; scenarios include rejected (unmarshalable) batches and externally written files. Held on the executions observed.",
+         "Runs the real engine over generated ingest/flush/merge histories (three store pairs, six tokenizers, all compressions, FPR 0.5..1e-12) and compares every query result against an independent encoding/json-based reference: every stored row the reference says must be returned is returned; after the generated queries an entry sweep looks up every distinct token, field path and field:token pair the stored rows produce (sampled beyond a cap) on its own. Rows carry planted membership-key collisions; scenarios include rejected (unmarshalable) batches, externally written files, engines behind a MetaStore that leaves all prefiltering to the engine, and a closure-wrapped default tokenizer. Held on the executions observed.",
          "Trusted: harness/refsem (written from README/FILE_FORMAT.md), Go encoding/json, the ledger of ingested rows. Regex patterns come from a fixed family.", "6/C01"),
  "C02": ("exploration", "differential runtime oracle + block-membership reconstruction (must/may) over generated scenarios",
          "Every returned row is checked to be a stored, matching row, never more often than stored; without a prefilter the multiset must be exact; with one the result must be a union of whole blocks between must(block) and may(block). High false-positive rates are over-represented so only row verification keeps non-matching rows out; an entry sweep checks exactness entry by entry (number/bool literals, case-folded words).",
@@ -33,33 +33,33 @@ CLAIMED = {
          "Trees built through the public constructors and builder sequences are compared, row by row and block by block, with the boolean combination the caller wrote (harness AST with reference leaf semantics); every expression and Query is round-tripped through encoding/json (same verdicts, stable bytes).",
          "Builder orders whose meaning is unspecified (chained calls before Match) carry no verdict; strings valid UTF-8.", "6/C25"),
  "C20": ("exploration", "consumer-script monitor over the real cursor with fault/delay plans at instrumented stores and tagged schedule points, under the race detector",
-         "Hundreds of generated Next/cancel/Close/concurrent-Close scripts with injected OpenFile/Read/Seek/iterator failures and PRNG delays run against started, never-started and stopped engines; a concurrent Close is held behind the consumer's final Next and the state read then must be the state after Close returned; the terminal state (sticky false, nil Row, Err classification by happens-before, every reached failure reported, Close nil/idempotent/not changing a decided state) is checked per script; blocked scripts are decided by a state-based stuck detector.",
+         "Hundreds of generated Next/cancel/Close/concurrent-Close scripts (plain cancellable contexts and contexts carrying a far-away deadline, cancelled directly or through their parent) with injected OpenFile/Read/Seek/iterator failures and PRNG delays run against started, never-started and stopped engines; a concurrent Close is held behind the consumer's final Next and the state read then must be the state after Close returned; the terminal state (sticky false, nil Row, Err classification by happens-before, every reached failure reported, Close nil/idempotent/not changing a decided state) is checked per script; blocked scripts are decided by a state-based stuck detector.",
          "Err after the consumer's own Close accepts nil/joined errors/context error (documented). Race detector reports with a bloomsearch frame are violations.", "6/C20"),
  "C21": ("exploration", "handle life-cycle / iterator / goroutine / slot monitors at the instant the cursor finishes, under the race detector",
          "Same scripts as C20: when the final Next returned false or Close returned, every DataStore handle the query opened is closed exactly once, none was used after close or by two operations at once (atomic in-use flag plus plain shadow field for the race detector), the MetaStore iterator has returned; goroutines started by Query and the engine's slot gauge are polled to zero.",
          "Goroutine exit polled up to 5 s (stable-state rule).", "6/C21"),
  "C22": ("exploration", "in-flight Read gauge on the instrumented DataStore + bounded-progress monitor with stalled consumers, under the race detector",
-         "Concurrent queries over slow reads: max simultaneous DataStore reads never exceeds MaxQueryConcurrency (1..8); queries whose consumers never read are parked with full row channels and all other queries must still complete (stuck detector).",
+         "Concurrent queries over slow reads: max simultaneous DataStore reads never exceeds MaxQueryConcurrency (1..8); queries whose consumers never read — or read a little after the pipeline settled and then stop, with their MetaStore iterators paused after a few files — are parked and all other queries must still complete (stuck detector).",
          "Gauge covers reads made by queries only (nothing else runs in the window).", "6/C22"),
  "C23": ("exploration", "Stats-vs-inventory monitor after every finished query (clean, terminated and failing)",
          "After Next returned false the per-block stats are checked: unique (file, offset), skipped blocks carry zero counters, blocks that produced returned rows are listed as processed, all-or-none per file against must/may, on clean completion processed counters equal the block's real row/byte counts, totals equal sums, RowsMatched equals rows returned. Runs on the C01 scenario stream and on the C20 scripts.",
          "All-or-none only asserted for queries not terminated early.", "6/C23"),
  "C24": ("exploration", "read/open log of the instrumented DataStore vs. pruning recomputed from the real filter bits",
-         "For each query, files whose file-level filters rule out the bloom tree must not be opened, row data of blocks ruled out by prefilter or block filters (bloom tree, or a field the regex conditions need being absent from the block's field filter) must not be read, condition-less queries must not touch a filter region, and every read must lie inside the file and the declared extents.",
+         "For each query (every fifth one meets a transient OpenFile/Read failure), files whose file-level filters rule out the bloom tree must not be opened, row data of blocks ruled out by prefilter or block filters (bloom tree, or a field the regex conditions need being absent from the block's field filter) must not be read, condition-less queries must not touch a filter region, and every read must lie inside the file and the declared extents.",
          "File level: only the bloom tree defines 'ruled out'; block level: bloom tree and the field-presence demand of the regex tree (weakest reading). Trees with unknown node kinds carry no verdict.", "6/C24"),
  "C05": ("exploration", "exactly-once ledger over done channels under concurrent producers, Start/Stop races, PRNG store faults and schedule-point delays, with the race detector",
-         "Histories of 2-24 concurrent producers (all batch and done-channel kinds, Flush callers) with Start early/late/twice/never, Stop racing with them, queries and merges alongside and flush-path store failures: after Stop returned nil every accepted batch has exactly one answer, refused batches have none, every Flush call has returned, both workers have exited. In a third of the histories callers are held between the stopped check and the channel send while Stop runs, at a tagged point and through caller contexts whose Done() is slow. Stuck detector for bounded progress.",
+         "Histories of 2-24 concurrent producers (all batch and done-channel kinds, Flush callers) with Start early/late/twice/never, Stop racing with them, queries and merges alongside and flush-path store failures: after Stop returned nil every accepted batch has exactly one answer, refused batches have none, every Flush call has returned, both workers have exited. Most batches of some histories report to one shared done channel (capacity 1-2); Stop is also called from two goroutines at once and again after it returned. In a third of the histories callers are held between the stopped check and the channel send while Stop runs, at a tagged point and through caller contexts whose Done() is slow. Stuck detector for bounded progress.",
          "'Keeps receiving' = receiver parked before the call; callers use context timeouts on a never-started engine.", "6/C05"),
  "C06": ("fault_enumeration", "store-call fault enumeration over recorded sequential histories; answers compared with queries on this and a fresh engine",
          "Every single flush-path store-call position of each explored history (CreateFile, every Write, Close pre- and post-effect, Update) is failed in turn, then every cleanup call (Abort/TombstoneFile/Close) the failure provoked, plus PRNG pairs; after every Flush and at the end: nil answer => rows visible exactly once on this and a fresh engine, error answer => never visible, unmarshalable batch => error and no trace, no batch unanswered or answered twice.",
          "Exhaustive over single positions of the explored histories; histories themselves are sampled. MetaStore.Update atomic (MemoryMetaStore behind the wrapper).", "6/C06"),
  "C07": ("exploration", "gated-store workload + late-receiver histories + monotone len() monitor over never-consumed buffered done channels + visibility query at every Flush return, with the race detector",
-         "A flush-path store call is held at a gate while clients keep sending batches and Flush calls; a polling monitor over the buffered done channels (monotone state) and a check at every Flush return require that whenever a batch is answered nil or Flush returns nil, every non-empty batch accepted earlier is already answered, and those answered nil are visible to a query. Late-receiver histories: an earlier batch's unbuffered done channel gets its receiver only after a later subject was seen answered (or 250 ms); a later subject answered before that is a violation.",
+         "A flush-path store call is held at a gate while clients keep sending batches and Flush calls; a polling monitor over the buffered done channels (monotone state) and a check at every Flush return require that whenever a batch is answered nil or Flush returns nil, every non-empty batch accepted earlier is already answered, and those answered nil are visible to a query. Late-receiver histories: an earlier batch's unbuffered done channel gets its receiver only after a later subject was seen answered (or 250 ms) — an explicit Flush, a limit- or time-triggered flush of a later batch, or a Flush arriving after the earlier batch's own flush committed but before its answer was delivered; a later subject answered before that is a violation. Some gated histories hold a time-triggered flush at the gate with nothing queued behind it.",
          "Order = real-time precedence on the harness's logical clock; empty batches are not subjects.", "6/C07"),
  "C08": ("exploration", "wedged-store/unreachable-backend/abandoned-channel workloads x context kinds (incl. a foreign context with late AfterFunc) with store-call log and stop.flagged hook, under the race detector",
-         "Stop is called while a flush is held at a ctx-ignoring gate, the backend is unreachable behind a store that honours contexts (and stays so after Stop returned: the deadline abort alone must unwind the workers and answer every waiter that can receive), and/or done channels are abandoned (batches of every kind, incl. those the ingest actor answers itself): callers starting after the stop.flagged hook get ErrEngineStopped; Stop returns on its own (the gate stays shut until then or deadline + 8 s); after a deadline error no CreateFile starts (store log ticks); after unwedging, workers exit and every waiter with capacity has exactly one value.",
+         "Stop is called while a flush is held at a ctx-ignoring gate, the backend is unreachable behind a store that honours contexts (and stays so after Stop returned: the deadline abort alone must unwind the workers and answer every waiter that can receive), and/or done channels are abandoned (batches of every kind, incl. those the ingest actor answers itself); Flush calls issued while the worker is held must return, and with an error once the deadline aborted the flushes ahead of them: callers starting after the stop.flagged hook get ErrEngineStopped; Stop returns on its own (the gate stays shut until then or deadline + 8 s); after a deadline error no CreateFile starts (store log ticks); after unwedging, workers exit and every waiter with capacity has exactly one value.",
          "A flush already inside a store call when the deadline fires may finish. The only wall-clock threshold is 8 s beyond deadlines of 60-250 ms.", "6/C08"),
- "C09": ("exploration", "accepted-minus-answered gauge under a stalled (gated) store, with the race detector",
+ "C09": ("exploration", "accepted-minus-answered gauge under a stalled (gated) store, with partitioned / fresh-partition-per-batch / empty batches, with the race detector",
          "With the store shut at a gate and producers offering 20x the bound, the number of accepted-but-unanswered batches never exceeds IngestBufferSize + 4*ceil(trigger/batchRows) + 2 and saturated IngestRows calls end with their context error.",
          "Only the row-count trigger active so a flush's worth of batches is well defined.", "6/C09"),
  "C10": ("exploration", "harness-side buffer model (rows, bytes, per-partition) predicting limit-triggered flushes; time-trigger cases with thresholds far from both behaviours",
@@ -67,15 +67,15 @@ CLAIMED = {
          "Verdict threshold = expected instant + 10 s (correct ~0.1 s, broken = never).", "6/C10"),
  "C13": ("fault_enumeration", "store-call fault enumeration over Merge from identical deep copies; classification by whether MetaStore.Update applied",
          "Every single store-call position of each explored population's Merge (iterator start and yields, CreateFile, OpenFile, Seek, Read, Write, Close pre/post, Update, TombstoneFile pre/post) is failed in turn, then the cleanup calls each failure provoked, PRNG pairs, a context cancelled mid-merge and a concurrent second Merge. Committed runs must return nil or stats+ErrPostCommitCleanup with outputs referenced, sources unreferenced and tombstoned only after the commit; uncommitted runs must return an error, leave the MetaStore identical and never tombstone a source; visible rows never change.",
-         "Exhaustive over single positions of explored populations. MetaStore.Update atomic. Every fourth population uses FileSystemDataStore as both stores (fresh directory copy per run), where an uncommitted published output is visible content; runs whose cleanup calls the harness made fail are exempt from the content comparison there.", "6/C13"),
+         "Exhaustive over single positions of explored populations. MetaStore.Update atomic. Update is also failed with an error wrapping context.Canceled while the Merge context is cancelled. Every fourth population uses FileSystemDataStore as both stores (fresh directory copy per run), where an uncommitted published output is visible content; runs whose cleanup calls the harness made fail are exempt from the content comparison there.", "6/C13"),
  "C14": ("exploration", "ack/start-tick snapshot monitor over concurrent writers, merger and query loops (both shipped MetaStores, -race) + porcupine linearizability of MemoryMetaStore histories",
          "Every finished query is checked against the set of rows acknowledged before its start tick (Err == nil => each exactly once; never a duplicate or a never-ingested row); MemDataStore really deletes so vanished files must surface as errors. Short concurrent Update/snapshot histories of MemoryMetaStore are checked linearizable with porcupine. The FileSystemDataStore-as-MetaStore variant reports the known merge-window finding by signature and anything else as a violation.",
          "FS-variant attribution: store kind fs ∧ anomaly ∈ {duplicate, omission} ∧ every affected row belongs to sources of a merge whose call overlaps the query's lifetime.", "6/C14"),
  "C16": ("exploration", "sequential specification model vs. directory listing/OpenFile/scan after every operation, forced name collisions via the tagged setter; concurrent variant under the race detector",
          "Generated CreateFile/Write/Close/Abort/TombstoneFile/OpenFile/scan sequences over up to six interleaved writers with the name draw forced through 1-4 names: after every operation the directory must equal a 40-line model's artifacts exactly, published pointers must return exactly their bytes, the scan must list exactly the published valid bloom files, CreateFile must never return a live pointer. A goroutine-per-writer variant checks the final state.",
-         "A writer whose pointer was tombstoned mid-write is retired; tombstones only in the sequential variant (a pointer is a name; see DESIGN.md). Store roots include names that contain the store's own extensions (.dat, .tmp).", "6/C16"),
+         "A writer whose pointer was tombstoned mid-write is retired; tombstones only in the sequential variant (a pointer is a name; see DESIGN.md). Store roots include names that contain the store's own extensions (.dat, .tmp) and foreign entries; redundant second Close, Abort after Close and stale Close after Abort are part of the sequences.", "6/C16"),
  "C27": ("exploration", "fd 1/2 capture of an engine-only child process (plus strace write-syscall cross-check in the thorough tier)",
-         "A child process built without -race runs ingest, flush (limit/time/explicit), query, merge and Stop histories with store failures at every call kind, targeted double faults (a primary failure plus the failure of the cleanup it provokes, on flush and on merges that already published output; a merge cancelled midway), corrupt/truncated files, external-writer files with absent filters, cancelled queries, unmarshalable rows and both Stop-deadline abandonment paths, with no Logger configured; both descriptors must stay empty and the child must exit 0.",
+         "A child process built without -race runs ingest, flush (limit/time/explicit), query, merge and Stop histories with store failures at every call kind, targeted double faults (a primary failure plus the failure of the cleanup it provokes, on flush and on merges that already published output; a merge cancelled midway, failing Close of read handles), the public read helpers over damaged files, the numeric conversion functions on odd values and query JSON that does not parse, corrupt/truncated files, external-writer files with absent filters, cancelled queries, unmarshalable rows and both Stop-deadline abandonment paths, with no Logger configured; both descriptors must stay empty and the child must exit 0.",
          "The child's own summary goes to a file, never to fd 1/2.", "6/C27"),
  "C15": ("fault_enumeration", "crash-image enumeration at every filesystem mutation callback + shadow durability model fed by fsync syscalls observed with strace; every image reopened by a fresh store and engine",
          "Each history (flushes, failing flushes, and merges that really combine files: floors on committed merges) runs in a child process under strace; after every filesystem mutation the directory is copied (process-crash image) with the ack set at that instant; durability facts (which file/directory fsyncs really returned between two crash points) come from the syscall trace, not from the hooks. Process-crash, torn-write and power-loss images (durable namespace + prefixes/subsets of pending namespace operations; unsynced tails dropped, truncated or zero-filled) must each recover: scan succeeds, yielded files fully readable, match-all query without error, every row acked before the crash point present, nothing never ingested, nothing more often than ingested.",
@@ -84,10 +84,10 @@ CLAIMED = {
          "16-48 concurrent queries over blocks of varied sizes and all compressions with PRNG delays at the query schedule points, plus an early-termination phase on blocks of several hundred rows (consumers keep rows of queries they then Close/cancel mid-block while later queries re-draw the pooled buffers); every returned row must equal the encoding/json round trip of the ingested row, and after the harness deep-mutates half of the retained rows every other retained row and a fresh query must be unchanged.",
          "Rows encoding/json cannot decode are compared by _vid only. Known finding: raw JSON with repeated keys.", "6/C03"),
  "C19": ("exploration", "mutation workload (byte-level, CRC-consistent framing, checksum-consistent deep mutations) with panic/fatal/allocation/row-content monitors",
-         "Thousands of mutated files (bit flips, bursts, truncations at structural boundaries, extensions, splices, zeroed ranges; footer re-encoded with consistent CRC and boundary-valued or foreign in-bounds offsets/sizes incl. UncompressedSize and Rows, traded or re-ordered filter sections; files re-assembled with every checksum consistent but a malformed row stream, filter section, bloom header or size), each written to disk before use: no panic or fatal error, allocation per call bounded by 16x(file + original uncompressed sizes) + 8 MiB, original-metadata queries return the exact answer or an error, every returned row is a written row.",
+         "Thousands of mutated files (bit flips, bursts, truncations at structural boundaries, extensions, splices, zeroed ranges; footer re-encoded with consistent CRC and boundary-valued or foreign in-bounds offsets/sizes incl. UncompressedSize and Rows, traded, nested, overlapping or re-ordered filter sections, duplicated / missing / shared blocks; files re-assembled with every checksum consistent but a malformed row stream, filter section, bloom header or size), each written to disk before use: no panic or fatal error, allocation per call bounded by 16x(file + original uncompressed sizes) + 8 MiB, original-metadata queries return the exact answer or an error, every returned row is a written row.",
          "Two defects found by these mutations were repaired in /repo (fa95dcf, f17c844). For deep mutations the wrong-row clause is asserted only where the framed rows are still byte-identical to written rows.", "6/C19"),
  "C26": ("exploration", "statistical probe of every written filter with never-inserted strings against the documented 3x tolerance + 6 sigma",
-         "Filters of every level and kind, holding 1 to 50 000 (thorough 300 000) distinct entries plus volume cases of 600 000 - 1 500 000 entries in one file, at rates 0.3..1e-4, flushed, multi-block and merged, written by one engine or by two engines with different rates sharing the store (each filter probed against the rate its own metadata records), are read back through the public helpers and probed with N >= 2e5 absent strings; the observed rate must stay within 3p + 6 sigma.",
+         "Filters of every level and kind, holding 1 to 50 000 (thorough 300 000) distinct entries plus volume cases of 600 000 - 1 500 000 entries in one file, at rates 0.3..1e-4, flushed, multi-block and merged, written by one engine or by two engines with different rates sharing the store (each filter probed against the rate its own metadata records), are (quick volume case: 900 000 entries at 1e-4 in one partition) read back through the public helpers and probed with N >= 2e5 absent strings; the observed rate must stay within 3p + 6 sigma.",
          "Statistical: false-alarm probability bounded by the 6 sigma margin plus the 3x slack (worst observed for n >= 50 is about 1.1x). Known finding for n < 50.", "6/C26"),
 }
 
